@@ -124,6 +124,31 @@ def r3_entry_slot(ctx):
               if st['k'] == 'assign' and any(e['k'] == 'index' for e in st['p']['pr'])]
     guarded = all(any(a[0] == 'bool' and a[1][0] == 'call' and a[1][1].endswith('::is_none') and a[2] is True for _, a in p.guard_atoms(b)) for b, i in stores)
     if first is None:
+        # equivalent form: `i = connections.iter().position(Option::is_none)` (first free index, front to back) and a store at [i]
+        for s in p.calls():
+            if s.callee != 'std::iter::Iterator::position' or len(s.args) != 2:
+                continue
+            it = peel(p.expr_operand(s.args[0], s.b, 'T'))
+            pr = peel(p.expr_operand(s.args[1], s.b, 'T'))
+            fwd = it[0] == 'call' and it[1].endswith(('slice::iter', 'slice::iter_mut')) and receiver_field(it[2][0]) == 'connections'
+            pred = pr[0] == 'fnitem' and pr[1].endswith('Option::is_none')
+            if pr[0] == 'agg' and str(pr[1]).startswith('closure:'):
+                g = ctx.P.fns.get(pr[1][len('closure:'):])
+                rts = [peel(t) for _, t in ret_trees(g)] if g else []
+                pred = bool(rts) and all(t[0] == 'call' and t[1].endswith('Option::is_none') for t in rts)
+            if fwd and pred:
+                idx_stores = []
+                for b in sorted(p.reachable()):
+                    for i, st in enumerate(p.stmts(b)):
+                        if st['k'] == 'assign' and any(e['k'] == 'index' for e in st['p']['pr']):
+                            ixl = [e['l'] for e in st['p']['pr'] if e['k'] == 'index'][0]
+                            if any(x[0] == 'call' and x[1].endswith('::position') for x in walk(p.expr_local(ixl, b, i))):
+                                idx_stores.append((b, i))
+                if idx_stores:
+                    first = 0
+                    stores = idx_stores
+                    guarded = True
+    if first is None:
         # equivalent form: `connections.iter_mut().find(|slot| slot.is_none())` and a store through the found slot
         for s in p.calls():
             if s.callee != 'std::iter::Iterator::find' or len(s.args) != 2:
